@@ -24,6 +24,7 @@ UNITS = {
     "perm": {"template": "contracts/perm.vrs", "rlimit": 200},
     "bls_gt": {"template": "contracts/bls_gt.vrs", "rlimit": 60},
     "trusted_additions": {"template": "contracts/trusted_additions.vrs", "rlimit": 60},
+    "tree_hash_bytes": {"template": "contracts/tree_hash_bytes.vrs", "rlimit": 30},
     "mempool_visitor": {"template": "contracts/mempool_visitor.vrs", "rlimit": 60},
     "generator_len": {"template": "contracts/generator_len.vrs", "rlimit": 30},
     "aggsig": {"template": "contracts/aggsig.vrs", "rlimit": 60},
@@ -163,13 +164,14 @@ PROPS["C13"] = {
     "level": "proof",
     "technique": "Verus trait-level contract on the real Streamable trait and impls (extracted verbatim; macro arms expanded by token substitution): stream/update_digest/parse all against one accumulator-style encoding spec enc_onto",
     "level_text": "Deductive proof, modular over the trait: for every impl under contract, stream appends exactly enc, update_digest absorbs exactly enc (so hash == sha256(enc)), and whenever parse (trusted or not: same contract) returns a value the consumed bytes are exactly that value's encoding (canonicity); from_bytes accepts only inputs that are entirely the encoding.",
-    "level_note": "Covered impls: 10 integer primitives, bool, (), Option<T>, tuples 2-4, Vec<T>, Bytes, BytesImpl<N>, trait default methods, all 112 derive(Streamable) structs of chia-protocol (from rustc's expansion, spec generated from the declarations) and the hand-written codecs (FullBlock, UnfinishedBlock, ProofOfSpace incl. the v2 quality-string hash, RewardChainBlock, SubEpochSummary, SubEpochData with the shared-prefix optional helper, Program, String). Opaque with assumed contract: [T;N], BLS elements, derived enums. The decode(encode(x)) == x direction is argued by composition (prefix-free encodings) and not machine-checked.",
+    "level_note": "Covered impls: 10 integer primitives, bool, (), Option<T>, tuples 2-4, Vec<T>, Bytes, BytesImpl<N>, trait default methods, all 112 derive(Streamable) structs of chia-protocol (from rustc's expansion, spec generated from the declarations) and the hand-written codecs (FullBlock, UnfinishedBlock, ProofOfSpace incl. the v2 quality-string hash, RewardChainBlock, SubEpochSummary, SubEpochData with the shared-prefix optional helper, Program, String). Opaque with assumed contract: [T;N], BLS elements, derived enums. The decode(encode(x)) == x direction is argued by composition (prefix-free encodings), not machine-checked as a contract, and decided on ground values of every declared type (task roundtrip_ground).",
     # the `hashable` clause of parse (hashing a decoded value is defined) is C14's statement, decided there
     "components": [V("streamable_core")] + [V(u, exclude_clause=r"v\.hashable\(\)") for u in
-                   ("streamable_derived_0", "streamable_derived_1", "streamable_derived_2", "streamable_handwritten")],
+                   ("streamable_derived_0", "streamable_derived_1", "streamable_derived_2", "streamable_handwritten")]
+                  + [N("native_roundtrip_ground", "roundtrip_ground", thorough_task="roundtrip_ground:thorough")],
     "assumptions": _STREAM_ASSUME,
     "not_covered": [
-        "round-trip direction decode(encode(x)) == x (needs prefix-freeness lemmas per type)",
+        "round-trip direction decode(encode(x)) == x as a contract (needs prefix-freeness lemmas per type): decided on ground values only - task roundtrip_ground draws values of every #[streamable] type the chia-protocol sources declare (list rebuilt from the sources on every run) and of the core impls with the crate's own Arbitrary impls, plus lists around the 2 MiB pre-allocation cap, and demands from_bytes(to_bytes(x)) == x for both decoders, identical re-encoding, hash == sha256(encoding) and rejection of one extra / one missing byte",
         "[T;N], PublicKey/Signature impls and derived enums (declared opaque with an assumed Streamable contract); String and Program are proved in unit streamable_handwritten and assumed, with that contract, where they occur as fields elsewhere",
         "derive(Streamable) impls outside chia-protocol (chia-consensus owned conditions, chia-datalayer)",
     ],
@@ -180,7 +182,8 @@ PROPS["C14"] = {
     "level_text": "Deductive proof that for every byte string and cursor position, read_bytes and every covered parse impl neither index out of range nor overflow (pos <= len is an invariant of every parse), terminate (loops bounded by the u32 length prefix), allocate at most 2 MiB up front, and from_bytes rejects trailing or missing bytes; stream/update_digest/hash have no precondition beyond what parse establishes (wf).",
     "level_note": "Same impl coverage and assumptions as C13. Memory = capacity argument of with_capacity; time = iteration counts.",
     "components": [V("streamable_core"), V("streamable_derived_0"), V("streamable_derived_1"), V("streamable_derived_2"),
-                   V("streamable_handwritten"), N("native_pos_v2_hash", "pos_v2_hash")],
+                   V("streamable_handwritten"), N("native_pos_v2_hash", "pos_v2_hash"),
+                   N("native_roundtrip_ground", "roundtrip_ground", thorough_task="roundtrip_ground:thorough")],
     "assumptions": _STREAM_ASSUME,
     "not_covered": [
         "[T;N], BLS element decoders; clvmr serialized_length_from_bytes (uninterpreted: Program::parse is proved to consume exactly the length it reports, after checking it against the buffer)",
@@ -193,10 +196,10 @@ PROPS["C17"] = {
     "technique": "Verus contracts on the real tree_hash_atom/tree_hash_pair and the iterative tree_hash stack machine (extracted verbatim) against the recursive definition th(); tree_hash_cached with the TreeCache invariant; curry_tree_hash / curry_and_treehash against the tree hash of the curried program (unit curry); exhaustive native evaluation of the 24 precomputed small-atom hashes",
     "level_text": "Deductive proof for every allocator tree (any depth/width/sharing, since th is a function of the abstract tree): tree_hash returns sha256(1‖atom) / sha256(2‖th l‖th r) recursively, never underflows its stacks and terminates (measure 2*size). The small-atom shortcut is sound because the 24 table constants are recomputed exhaustively.",
     "level_note": "Assumed: Sha256 ghost model over an uninterpreted sha256; clvmr Allocator::node contract. tree_hash_cached with the TreeCache invariant (every memoised hash is the tree hash of its node, for any call history) is proved in unit tree_hash; curry_tree_hash and fast_forward's curry_and_treehash / curry_single_arg are proved in unit curry against the tree hash of the curried program (a (q . program) (c (q . arg) ... 1)); tree_hash_from_bytes is the composition of an assumed decoder and tree_hash_cached.",
-    "components": [V("tree_hash"), N("native_tree_hash_precomputed", "tree_hash_precomputed"), V("curry")],
+    "components": [V("tree_hash"), N("native_tree_hash_precomputed", "tree_hash_precomputed"), V("curry"), V("tree_hash_bytes")],
     "assumptions": ["Sha256 ghost model, sha256 uninterpreted", "clvmr Allocator::node / atom contracts (shims/clvmr.rs)"],
     "not_covered": [
-        "tree_hash_from_bytes (rests on node_from_bytes_backrefs: Allocator::new + decode + tree_hash_cached, three assumed/proved callees with nothing in between)",
+        "tree_hash_from_bytes is proved (unit tree_hash_bytes) to be the tree hash of whatever node_from_bytes_backrefs decodes, and an error exactly when that fails; the decoder itself (clvmr) is an assumed deterministic collaborator",
     ],
 }
 
